@@ -179,10 +179,15 @@ def r11_4(ctx: Ctx, rep: Report, helpers: Dict[str, Optional[Func]]) -> None:
 
 
 def run(ctx: Ctx, rep: Report, tier: str) -> None:
-    fields = r03_1(ctx, rep, rid="R11.2")
-    helpers = {f: helper_for_field(ctx, rep, f) for f in fields}
-    r03_2(ctx, rep, helpers, rid="R11.1")
-    r03_3(ctx, rep, pairs=SIBLINGS[:2], rid="R11.2")
+    # R11.0: every clause C03 decides about the pairwise test (conjunction, skip independence/monotonicity = the
+    # 'for every combination of skip options' clause, sibling agreement, inclusion direction, ...) is a premise here
+    from . import c03
+    from .c03 import packet_fields
+
+    sub = Report("C11")
+    c03.run(ctx, sub, tier)
+    rep.absorb(sub, "R11.0")
+    helpers = {f: helper_for_field(ctx, rep, f) for f in packet_fields(ctx)}
     r11_3(ctx, rep)
     rep.rule("R11.3b")
     check_strictly_above(ctx, rep, analyse_shading(ctx))
